@@ -763,6 +763,9 @@ package dbft
 // ---- helpers.go, rtt.go ----
 
 //@ func (*cache).getHeight
+//@   loop 1: invariant cacheOK() && forall(k2, implies(visited(k2) && k2 < h, !has(self.cache.mail, k2)))
+//@   loop 1: invariant forall(k2, implies(has(self.cache.mail, k2), rangehas(k2) && self.cache.mail[k2] == old(self.cache.mail[k2])))
+//@   loop 1: invariant forall(k2, implies(rangehas(k2) && k2 >= h, has(self.cache.mail, k2)))
 //@   requires cacheOK()
 //@   ensures cacheOK() && (result == nil || inboxOK(result))
 //@   ensures implies(!old(has(self.cache.mail, h)), result == nil)
